@@ -59,6 +59,14 @@ FIELDS = {
     "handler": [
         {"DSC": ("ONE", "INF", "NONE", "NAN"), "IOU": ("ZERO", "ONE", "INF", "NONE"), "ASSD": ("ZERO", "ONE", "NAN", "ZERO"), "RVD": ("ONE", "ZERO", "INF", "ONE"), "clDSC": ("NONE", "NAN", "ONE", "ZERO")},
         {"DSC": ("INF", "INF", "INF", "INF"), "IOU": ("ONE", "ONE", "ONE", "ONE"), "ASSD": ("ZERO", "ZERO", "ZERO", "ZERO"), "RVD": ("NONE", "NONE", "NONE", "NONE"), "clDSC": ("NAN", "NAN", "NAN", "NAN")},
+        # tables that define only some metrics (a metric without entry must stay without entry: its zero-TP case raises), with the
+        # library's own default values and with other values; the library's full default table spelled out
+        {"DSC": ("NAN", "ZERO", "ZERO", "ZERO")},
+        {"DSC": ("NAN", "ZERO", "ZERO", "ZERO"), "ASSD": ("NAN", "INF", "INF", "INF")},
+        {"IOU": ("NAN", "ZERO", "ZERO", "ZERO"), "RVD": ("NAN", "NAN", "NAN", "NAN"), "clDSC": ("NAN", "ZERO", "ZERO", "ZERO")},
+        {"IOU": ("ONE", "ZERO", "ZERO", "INF")},
+        {"DSC": ("NAN", "ZERO", "ZERO", "ZERO"), "clDSC": ("NAN", "ZERO", "ZERO", "ZERO"), "IOU": ("NAN", "ZERO", "ZERO", "ZERO"), "ASSD": ("NAN", "INF", "INF", "INF"), "RVD": ("NAN", "NAN", "NAN", "NAN")},
+        {},
     ],
     "std": ["ZERO", "INF", "NONE", "ONE"],
     "groups": [
